@@ -153,7 +153,7 @@ func (tb *TB) instantiate(asserts []*Term, rounds int) []*Term {
 	for r := 0; r < rounds; r++ {
 		// ground index terms
 		ground := map[int]*Term{}
-		tb.groundByRoot = map[int][]*Term{}
+		tb.groundByRoot = map[string][]*Term{}
 		var order []*Term
 		seen := map[int]bool{}
 		var walk func(t *Term, under bool)
@@ -172,7 +172,7 @@ func (tb *TB) instantiate(asserts []*Term, rounds int) []*Term {
 						order = append(order, t.Args[1])
 					}
 				}
-				rt := arrayRoot(t.Args[0]).ID
+				rt := rootKey(t.Args[0])
 				tb.groundByRoot[rt] = appendUnique(tb.groundByRoot[rt], t.Args[1])
 			}
 			if strings.HasPrefix(t.Op, "uf:") {
@@ -323,7 +323,7 @@ func (tb *TB) instantiate(asserts []*Term, rounds int) []*Term {
 // of the shape v, X+v or v+X, equals a ground index term when v := g.
 func (tb *TB) candidates(body *Term, v *Term, ground []*Term) []*Term {
 	var pats []*Term
-	patRoot := map[int]int{}
+	patRoot := map[int]string{}
 	seen := map[int]bool{}
 	var walk func(t *Term)
 	walk = func(t *Term) {
@@ -331,9 +331,9 @@ func (tb *TB) candidates(body *Term, v *Term, ground []*Term) []*Term {
 			return
 		}
 		seen[t.ID] = true
-		if t.Op == "select" && t.Args[1].Sort == v.Sort && mentions(t.Args[1], v) && (!heapLevel(t.Args[0]) || t.Args[1] != v) {
+		if t.Op == "select" && t.Args[1].Sort == v.Sort && mentions(t.Args[1], v) && (!heapLevel(t.Args[0]) || t.Args[1] != v || contentsMap(t.Args[0])) {
 			pats = append(pats, t.Args[1])
-			patRoot[len(pats)-1] = arrayRoot(t.Args[0]).ID
+			patRoot[len(pats)-1] = rootKey(t.Args[0])
 		}
 		if strings.HasPrefix(t.Op, "uf:") {
 			for _, a := range t.Args {
@@ -584,4 +584,20 @@ func (tb *TB) linSolve(p, v, g *Term) *Term {
 		r = tb.Add(tb.Mul(lf.terms[id], tb.IntB(new(big.Int).Quo(lf.atoms[id], coef))), r)
 	}
 	return r
+}
+
+// contentsMap: the array is (a store chain over) an E.* contents map keyed by array references.
+func contentsMap(a *Term) bool {
+	r := arrayRoot(a)
+	return r.Op == "var" && (strings.HasPrefix(r.Name, "E.") || strings.HasPrefix(r.Name, "hv.E."))
+}
+
+// rootKey identifies the array a select reads from, up to stores; for nested
+// arrays (contents maps) the key of the inner array is derived from the outer map.
+func rootKey(a *Term) string {
+	r := arrayRoot(a)
+	if r.Op == "select" {
+		return "sel:" + rootKey(r.Args[0])
+	}
+	return fmt.Sprint(r.ID)
 }
